@@ -101,6 +101,37 @@ func (c *vCluster) checkAgreement() {
 	}
 }
 
+// byzFollow: listed concrete Byzantine action: it goes along with whatever the correct nodes PREPAREd last (genuine
+// PREPARE and COMMIT for that view and hash to every correct node)
+func (c *vCluster) byzFollow() {
+	cs := c.correct()
+	for _, j := range cs {
+		var last *interfaces.PrepareMessage
+		for _, sm := range c.nodes[j].comm.Out {
+			if pm, ok := sm.Msg.(*interfaces.PrepareMessage); ok {
+				last = pm
+			}
+		}
+		if last == nil {
+			continue
+		}
+		h := last.Content().SignedHeader().BlockHash()
+		for _, k := range cs {
+			c.nodes[k].deliver(c.wd.net.pm(c.byz, 1, last.View(), h).ToConsensusRawMessage())
+			c.nodes[k].deliver(c.wd.net.cm(c.byz, 1, last.View(), h).ToConsensusRawMessage())
+		}
+	}
+}
+
+// handDeliver: the messages of node `from` that satisfy pick (looked up in its whole outbox) are delivered to node `to`
+func (c *vCluster) handDeliver(from, to int, pick func(m interfaces.ConsensusMessage) bool) {
+	for _, sm := range c.nodes[from].comm.Out {
+		if pick(sm.Msg) {
+			c.nodes[to].deliver(sm.Raw)
+		}
+	}
+}
+
 func (c *vCluster) correct() []int {
 	var out []int
 	for i, n := range c.nodes {
@@ -216,7 +247,7 @@ func (c *vCluster) prefix(p int, timeouts int) {
 				}
 			}
 		}
-		env.Assert("C01.prefix4.partial_commit", len(c.nodes[l1].commits) == 1 && len(c.nodes[cs[1]].commits) == 0 && len(c.nodes[cs[2]].commits) == 0)
+		env.Assume(len(c.nodes[l1].commits) == 1 && len(c.nodes[cs[1]].commits) == 0 && len(c.nodes[cs[2]].commits) == 0)
 		for t := 0; t < timeouts; t++ {
 			c.flush(lost)
 			for _, i := range cs[1:] {
@@ -238,8 +269,12 @@ func (c *vCluster) prefix(p int, timeouts int) {
 		_, isC := m.(*interfaces.CommitMessage)
 		return !isC
 	}
+	if p == 6 {
+		c.prefixTwoLocks()
+		return
+	}
 	if p == 5 {
-		env.Assert("C01.prefix5.needs_byz_2", c.byz == 2)
+		env.Assume(c.byz == 2)
 	}
 	if p >= 1 {
 		// the Byzantine member also PREPAREs honestly (it wants the others locked)
@@ -290,7 +325,7 @@ func (c *vCluster) prefix(p int, timeouts int) {
 		c.flush(lagging)
 		c.nodes[1].deliver(c.wd.net.vcm(c.byz, 1, 1, nil).ToConsensusRawMessage())
 		c.flush(lagging)
-		env.Assert("C01.prefix5.new_view_adopted", c.nodes[0].m.state.View() == 1 && c.nodes[1].m.state.View() == 1)
+		env.Assume(c.nodes[0].m.state.View() == 1 && c.nodes[1].m.state.View() == 1)
 		for _, i := range c.correct() {
 			if len(c.nodes[i].commits) == 0 {
 				c.nodes[i].timeout()
@@ -393,24 +428,7 @@ func C01_Run() {
 		c.flush(nil)
 		c.checkAgreement()
 		if env.ParamOr("byzfollow", 0) == 1 {
-			// listed concrete Byzantine action: it goes along with whatever the correct nodes PREPAREd last
-			// (genuine PREPARE and COMMIT for that view and hash to every correct node)
-			for _, j := range cs {
-				var last *interfaces.PrepareMessage
-				for _, sm := range c.nodes[j].comm.Out {
-					if pm, ok := sm.Msg.(*interfaces.PrepareMessage); ok {
-						last = pm
-					}
-				}
-				if last == nil {
-					continue
-				}
-				h := last.Content().SignedHeader().BlockHash()
-				for _, k := range cs {
-					c.nodes[k].deliver(c.wd.net.pm(c.byz, 1, last.View(), h).ToConsensusRawMessage())
-					c.nodes[k].deliver(c.wd.net.cm(c.byz, 1, last.View(), h).ToConsensusRawMessage())
-				}
-			}
+			c.byzFollow()
 			c.flush(nil)
 			c.checkAgreement()
 		}
@@ -425,4 +443,60 @@ func C01_Run() {
 	if ncommitted >= 1 {
 		env.Reach("C01.some_commit")
 	}
+}
+
+// prefixTwoLocks (prefix 6, Byzantine member 2, nobody forges anything): a node must carry its LATEST lock.
+//   view 0: the honest leader 0 proposes X; only node 3 becomes prepared on X (it alone sees the PREPAREs);
+//   view 1: everybody times out, node 3's vote (with its proof of X) is lost, the correct leader 1 is elected by
+//           proof-less votes (one of them the Byzantine member's) and proposes a fresh Y; nodes 0 and 3 adopt it,
+//           exchange PREPAREs (the leader sees none) and are prepared on Y@1; node 0 commits Y with node 3's COMMIT
+//           and a genuine Byzantine COMMIT;
+//   views 2, 3: nodes 1 and 3 time out twice (the Byzantine leader of view 2 stays silent); node 3 leads view 3 and
+//           is elected by its own vote, node 1's proof-less vote and a Byzantine proof-less vote. Its own vote must
+//           carry Y@1 (its latest lock), so it re-proposes Y; the Byzantine member goes along with whatever follows.
+func (c *vCluster) prefixTwoLocks() {
+	env.Assume(c.byz == 2)
+	const N = 3
+	net := c.wd.net
+	lost := func(from, to int, m interfaces.ConsensusMessage) bool { return false }
+	isType := func(t protocol.MessageType, v primitives.View) func(m interfaces.ConsensusMessage) bool {
+		return func(m interfaces.ConsensusMessage) bool { return m.MessageType() == t && m.View() == v }
+	}
+	c.flush(func(from, to int, m interfaces.ConsensusMessage) bool { return m.MessageType() == protocol.LEAN_HELIX_PREPREPARE })
+	x := c.nodes[0].bu.Requests[0].Hash
+	c.handDeliver(1, N, isType(protocol.LEAN_HELIX_PREPARE, 0))
+	c.nodes[N].deliver(net.pm(c.byz, 1, 0, x).ToConsensusRawMessage())
+	c.flush(lost)
+	for _, i := range c.correct() {
+		c.nodes[i].timeout()
+	}
+	c.handDeliver(0, 1, isType(protocol.LEAN_HELIX_VIEW_CHANGE, 1))
+	c.nodes[1].deliver(net.vcm(c.byz, 1, 1, nil).ToConsensusRawMessage())
+	for _, to := range []int{0, N} {
+		c.handDeliver(1, to, isType(protocol.LEAN_HELIX_NEW_VIEW, 1))
+	}
+	c.handDeliver(0, N, isType(protocol.LEAN_HELIX_PREPARE, 1))
+	c.handDeliver(N, 0, isType(protocol.LEAN_HELIX_PREPARE, 1))
+	c.handDeliver(N, 0, isType(protocol.LEAN_HELIX_COMMIT, 1))
+	var y primitives.BlockHash
+	for _, sm := range c.nodes[N].comm.Out {
+		if pm, ok := sm.Msg.(*interfaces.PrepareMessage); ok && pm.View() == 1 {
+			y = pm.Content().SignedHeader().BlockHash()
+		}
+	}
+	c.nodes[0].deliver(net.cm(c.byz, 1, 1, y).ToConsensusRawMessage())
+	env.Assume(len(c.nodes[0].commits) == 1 && len(c.nodes[1].commits) == 0 && len(c.nodes[N].commits) == 0 && !env.EqBytes(x, y))
+	c.flush(lost)
+	for r := 0; r < 2; r++ {
+		c.nodes[1].timeout()
+		c.nodes[N].timeout()
+		if r == 0 {
+			c.flush(lost)
+		}
+	}
+	c.handDeliver(1, N, isType(protocol.LEAN_HELIX_VIEW_CHANGE, 3))
+	c.nodes[N].deliver(net.vcm(c.byz, 1, 3, nil).ToConsensusRawMessage())
+	c.flush(nil)
+	c.byzFollow()
+	c.flush(nil)
 }
